@@ -368,9 +368,10 @@ fn paint_file_path_with_line_number(
         HunkHeaderIncludeFilePath::Yes if !config.color_only => Some(*file_style),
         _ => None,
     };
+    // (A raw hunk header is not written by this function, and grep output, which is, does not
+    // depend on hunk-header-style.)
     let line_number_style = if matches!(include_line_number, HunkHeaderIncludeLineNumber::Yes)
         && line_number.is_some()
-        && !config.hunk_header_style.is_raw
         && !config.color_only
     {
         Some(*line_number_style)
